@@ -70,11 +70,14 @@ def benign(err):
 def segments(trace):
     """split a trace into run() calls: [(N, nfe_before, [step records], nfe_after)];
     step record = dict(nfe=, batches=[(members, calls, nfe_before, nfe_after)], exposed=, sizes=)"""
-    segs, cur, steps, batches, b, calls, evolves = [], None, [], [], None, 0, []
+    segs, cur, steps, batches, b, calls, evolves, restarts = [], None, [], [], None, 0, [], []
     for ev in trace.events:
         k = ev[0]
         if k == "evolve":
             evolves.append(ev[1])
+            continue
+        if k == "restart":
+            restarts.append({"archive": ev[1], "ratio": ev[2], "min": ev[3], "max": ev[4], "arity": ev[5], "batches_before": len(batches)})
             continue
         if k == "run":
             cur, steps, batches = (ev[1], ev[2]), [], []
@@ -87,8 +90,9 @@ def segments(trace):
             b = None
         elif k == "step":
             steps.append({"nfe": ev[1], "batches": batches, "exposed": ev[2], "sizes": ev[3], "evolves": evolves,
-                          "population_size": ev[4] if len(ev) > 4 else None})
-            batches, evolves = [], []
+                          "population_size": ev[4] if len(ev) > 4 else None, "restarts": restarts,
+                          "population_size_attr": ev[5] if len(ev) > 5 else None})
+            batches, evolves, restarts = [], [], []
         elif k == "run_end":
             segs.append({"N": cur[0], "nfe_before": cur[1], "steps": steps, "nfe_after": ev[1], "dangling_batches": batches})
             cur = None
@@ -111,6 +115,48 @@ GEN_STYLE = {"NSGAII": 0, "EpsNSGAII": 0, "SPEA2": 0, "NSGAIII": 0, "IBEA": 0, "
              "GDE3": 4, "MOEAD": 5, "PESA2": 6, "PAES": 7, "OMOPSO": 8, "SMPSO": 8, "CMAES": 8}
 
 
+def restart_replay(ctx, ask, alg, segs, allsteps, counts, inp):
+    """runs with adaptive time continuation (Model/Restart.lean, Props/C08Restart.lean): counter, variator calls, mutator calls,
+    len(population) and the population_size attribute after every iteration of the run loop (step + restart, if any), from the
+    offspring counts of the variator, the restart decisions and the archive sizes at the restarts"""
+    from common import wlist
+    rs = [r for st in allsteps for r in st["restarts"]]
+    par = {(r["ratio"], r["min"], r["max"], r["arity"]) for r in rs}
+    ratio, lo, hi, arity = next(iter(par))
+    if (len(par) != 1 or any(len(st["restarts"]) > 1 for st in allsteps) or float(ratio) != int(ratio) or arity != 1
+            or segs[0]["nfe_before"] != 0 or len(allsteps[0]["batches"]) < 1):
+        ctx.count("restart_runs_skipped_outside_model")     # two extensions, a fractional ratio, a mutator of another arity
+        return
+    if any(c is None or c < 1 for c in counts):
+        ctx.count("genstep_runs_skipped_variator_returned_no_offspring")
+        return
+    # evaluate_all is called once by the step and once by the restart (possibly with nothing to evaluate)
+    if any(len(st["batches"]) != 1 + len(st["restarts"]) or any(r["batches_before"] != 1 for r in st["restarts"]) for st in allsteps):
+        ctx.disagree("restart model (one batch per step and one per restart, the restart after the step)",
+                     dict(inp, batches_per_step=[len(st["batches"]) for st in allsteps][:40],
+                          restarts_per_step=[len(st["restarts"]) for st in allsteps][:40]), "1 + #restarts", "see input")
+        return
+    size0 = len(allsteps[0]["batches"][0]["members"])
+    archs = [(st["restarts"][0]["archive"] + 1) if st["restarts"] else 0 for st in allsteps]
+    pos, mpos, want = 0, 0, []
+    for st in allsteps:
+        pos += len(st["evolves"])
+        if st["restarts"]:
+            mpos += len(st["batches"][1]["members"])       # a mutation operator returns one offspring per call
+        want.append(f"{st['nfe']}:{pos}:{mpos}:{st['population_size']}:{st['population_size_attr']}")
+    rinp = dict(inp, initial_population_size=size0, ratio=ratio, min_population_size=lo, max_population_size=hi,
+                archive_size_at_restart_plus_1_or_0=archs[:60], offspring_per_variator_call=counts[:40],
+                observed_nfe_calls_mutations_population_attr_per_iteration=want[:16])
+    ask(f"erun {size0} {int(ratio)} {lo} {hi} {wlist(counts)} {wlist([])} {wlist(archs)}",
+        lambda g, want=want, rinp=rinp: None if g == " ".join(want)
+        else ctx.disagree("restart model (rStep: counter, variator calls, injected, population and population_size after every iteration)",
+                          rinp, " ".join(want)[:400], g[:400]))
+    ctx.count("restart_histories_replayed")
+    ctx.count("restart_iterations_replayed", len(allsteps))
+    ctx.count("restarts_replayed", len(rs))
+    ctx.count("restarts_replayed_without_injection", sum(1 for st in allsteps if st["restarts"] and not st["batches"][1]["members"]))
+
+
 def genstep_replay(ctx, ask, alg, segs, inp):
     """model of one step() on sizes (Model/GenStep.lean, Props/C08Gen.lean): the counter, the number of variator calls and the
     population / swarm size after every step of the whole history, from the offspring counts the variator returned.  The premise
@@ -125,8 +171,10 @@ def genstep_replay(ctx, ask, alg, segs, inp):
         return
     gsize = alg.swarm_size if style == 8 and hasattr(alg, "swarm_size") else (alg.offspring_size if style == 8 else getattr(alg, "population_size", None))
     counts = [c for st in allsteps for c in st["evolves"]]
+    if style == 0 and any(st.get("restarts") for st in allsteps):
+        return restart_replay(ctx, ask, alg, segs, allsteps, counts, inp)
     if style != 5 and any(len(st["batches"]) != 1 for st in allsteps):
-        ctx.count("genstep_runs_skipped_restart_or_extra_batches")        # eps-NSGA-II restarts evaluate outside iterate()
+        ctx.count("genstep_runs_skipped_restart_or_extra_batches")        # evaluations outside iterate() that the model does not cover
         return
     if any(c is None or c < 1 for c in counts):
         ctx.count("genstep_runs_skipped_variator_returned_no_offspring")  # outside the theorem's premise
